@@ -7,7 +7,10 @@ package interp
 // target's less function and may be symbolic.
 
 import (
+	"go/token"
+	"go/types"
 	"math/bits"
+	"strconv"
 
 	"golang.org/x/tools/go/ssa"
 )
@@ -78,4 +81,98 @@ func init() {
 	}
 	stdIntrinsicsExtra["reflect.Swapper"] = sw
 	stdIntrinsicsExtra["internal/reflectlite.Swapper"] = sw
+}
+
+// ---------------------------------------------------------------------------------------
+// errors.As (its reflectlite use replaced by go/types reasoning) and fmt.Errorf("%w").
+
+func (fr *frame) methodOf(t types.Type, name string) *ssa.Function {
+	sel := fr.i.prog.MethodSets.MethodSet(t).Lookup(nil, name)
+	if sel == nil {
+		return nil
+	}
+	return fr.i.prog.MethodValue(sel)
+}
+
+func (fr *frame) errorsAs(err value, target iface, T types.Type) bool {
+	for {
+		e, _ := err.(iface)
+		if e.t == nil {
+			return false
+		}
+		if types.AssignableTo(e.t, T) {
+			p := target.v.(*value)
+			if types.IsInterface(T) {
+				*p = e
+			} else {
+				*p = e.v
+			}
+			return true
+		}
+		if m := fr.methodOf(e.t, "As"); m != nil && m.Signature.Params().Len() == 1 && m.Signature.Results().Len() == 1 {
+			r := call(fr.i, fr, 0, m, []value{e.v, target})
+			if fr.branch(fr.i.truth(r)) {
+				return true
+			}
+		}
+		m := fr.methodOf(e.t, "Unwrap")
+		if m == nil || m.Signature.Params().Len() != 0 || m.Signature.Results().Len() != 1 {
+			return false
+		}
+		r := call(fr.i, fr, 0, m, []value{e.v})
+		if es, ok := r.([]value); ok {
+			for _, x := range es {
+				if fr.errorsAs(x, target, T) {
+					return true
+				}
+			}
+			return false
+		}
+		err = r
+	}
+}
+
+func init() {
+	stdIntrinsicsExtra["errors.As"] = func(fr *frame, args []value) value {
+		target, _ := args[1].(iface)
+		if target.t == nil {
+			panic(targetPanic{v: iface{t: types.Typ[types.String], v: "errors: target cannot be nil"}})
+		}
+		pt, ok := target.t.Underlying().(*types.Pointer)
+		if !ok || target.v.(*value) == nil {
+			panic(targetPanic{v: iface{t: types.Typ[types.String], v: "errors: target must be a non-nil pointer"}})
+		}
+		return fr.errorsAs(args[0], target, pt.Elem())
+	}
+}
+
+// strconv.small(i) returns a slice of a constant digit table at a symbolic offset; build the
+// one or two digits directly instead of concretising the offset.
+func init() {
+	stdIntrinsicsExtra["strconv.small"] = func(fr *frame, args []value) value {
+		if k, ok := args[0].(int); ok {
+			return strconv.Itoa(k)
+		}
+		tInt, tByte := types.Typ[types.Int], types.Typ[types.Uint8]
+		digit := func(v value) value { return fr.conv(tByte, tInt, fr.binop(token.ADD, tInt, v, 48)) }
+		if fr.branch(fr.i.truth(fr.binop(token.LSS, tInt, args[0], 10))) {
+			return symstr{digit(args[0])}
+		}
+		return symstr{digit(fr.binop(token.QUO, tInt, args[0], 10)), digit(fr.binop(token.REM, tInt, args[0], 10))}
+	}
+}
+
+func init() {
+	stdIntrinsicsExtra["errors.Is"] = func(fr *frame, args []value) value {
+		e, _ := args[0].(iface)
+		t, _ := args[1].(iface)
+		if e.t == nil || t.t == nil {
+			return e.t == nil && t.t == nil
+		}
+		p := fr.i.prog.ImportedPackage("errors")
+		if p == nil || p.Func("is") == nil {
+			panic(unsupported("errors.is not available"))
+		}
+		return callSSA(fr.i, fr, 0, p.Func("is"), []value{args[0], args[1], types.Comparable(t.t)}, nil)
+	}
 }
